@@ -146,4 +146,24 @@ Proof.
   intros (x2 & Hb & HI2 & HT1 & HF1 & HT & HF). change (Nat.eqb 1 1) with true in *. subst. eauto.
 Qed.
 
+(* with the replay lemma (Proofs/ResolverSFrameP.v): the state after an all-Resolved optimised first pass is a fixed point
+   of the unoptimised pass in the same mode *)
+Lemma one_pass_ge3 b x F T : one_pass b x F T -> (3 <= b)%nat ->
+  (forall x2, PS true false x = EOk (x2, Resolved) -> INV x2 -> PF false (ss x2) = EOk (ss x2, Resolved)) ->
+  match F with
+  | EErr => T = EErr
+  | EOk (st, n) => n = 2%nat /\ exists x', T = EOk (x', 1%nat) /\ ss x' = st
+  end.
+Proof.
+  intros (x2 & Hb & HI2 & HT1 & HF1 & HT & HF) Hb3 FL.
+  assert (E1 : Nat.eqb 1 b = false) by (apply Nat.eqb_neq; lia). rewrite E1 in *.
+  pose proof (FL x2 HT1 HI2) as Hfix. subst F T.
+  destruct b as [|[|[|k]]]; try lia. replace (S (S (S k)) - 1)%nat with (S (S k)) by lia. cbn [loop].
+  assert (E2 : Nat.eqb 2 (S (S (S k))) = false) by reflexivity. rewrite E2, Hfix.
+  pose proof (whole_pass false true x2 HI2) as H.
+  destruct (PF true (ss x2)) as [[stc rF]|]; [|rewrite H; reflexivity].
+  destruct H as (x' & rT & HT' & Hss & _ & Heq & _). rewrite HT'. rewrite (Heq (andb_false_r _)).
+  destruct rF; [|reflexivity]. split; [reflexivity|]. eauto.
+Qed.
+
 End Loop.
